@@ -7,6 +7,7 @@ uploader is driven by harness/inject/internal/verifh/c01."""
 import json
 import os
 import random
+import re
 
 from vlib import tlaval
 from vlib.core import Infra
@@ -22,7 +23,7 @@ def hist_behaviours(ctx):
         'ApprovalTok', 'ApprovalHist')
     base = ('CONSTANTS\n D = %d\n NameOf <- MCNameOf\n ValOf <- MCValOf\n' % A.D_VEC)
     cfg = ('SPECIFICATION Spec\nINVARIANTS TypeOK PostedIsApprovedByItsBuilder\nPROPERTIES NoResend LeftoverResent BuiltIsFrozen BuiltUnderPublished\n'
-           'CHECK_DEADLOCK FALSE\n' + base + ' WeekSet = %s\n MaxRuns = %d\n MaxPub = %d\n' % (ctx.pick('{1}', '{1, 2}'), ctx.pick(2, 3), ctx.pick(2, 2)))
+           'CHECK_DEADLOCK FALSE\nVIEW HView\n' + base + ' WeekSet = %s\n MaxRuns = %d\n MaxPub = %d\n' % (ctx.pick('{1}', '{1, 2}'), ctx.pick(2, 3), ctx.pick(2, 2)))
     r = ctx.tlc('MCApprovalHist', files={'MCApprovalHist.tla': mc}, cfg_text=cfg, workers=ctx.pick(4, 8), label='ApprovalHist-bfs', timeout=2400)
     if not r.ok:
         raise Infra('ApprovalHist: the specification violates %s %s\n%s' % (r.error, r.error_name, r.out[-3000:]))
@@ -48,7 +49,7 @@ def hist_behaviours(ctx):
                         seen.add(f['id'])
                         arrived.append(f)
             elif last['op'] == 'run':
-                steps.append({'cfg': last['cfg'], 'ver': last['ver'], 'fresh': bool(last['fresh']), 'x': last['x'], 'reply': last['reply'], 'files': arrived, 'obs': st['obs']})
+                steps.append({'cfg': last['cfg'], 'ver': last['ver'], 'how': last['how'], 'fresh': last['how'] == 'fresh', 'x': last['x'], 'reply': last['reply'], 'files': arrived, 'obs': st['obs']})
                 arrived = []
         if steps:
             behs.append(steps)
@@ -255,7 +256,7 @@ def run(ctx):
         'rates, SampleRate and X are multiples of 1/8 (vectors) or 1/1024 (random half), hence exact float64 values; X is chosen by replacing crypto/rand.Reader by a reader that, per uploader run, returns a '
         'SEQUENCE of distinct values (k-th draw of the run = k-th value); every report is judged relative to the X field it carries itself',
         'that the posted report and local.<week>.json of one run carry the same X is recorded as a divergence warning, not as a violation (the statement speaks of "the report\'s random X"; what decides is the filter relative to the posted X)',
-        'histories (ApprovalHist) use one X value per run; every history is one machine with one config proxy and one environment, configurations are published there as successive versions between runs, and runs happen in the test process or in a fresh child process',
+        'histories (ApprovalHist) use one X value per run; every history is one machine with one config proxy and one environment, configurations are published there as successive versions between runs, and runs happen in the test process or in a fresh child process; a run may lose the creation of local.<week>.json to a concurrent uploader (emulated by a dangling symbolic link of that name: Stat says absent, exclusive create says exists)',
         'configurations outside the domain of the statement are not generated: a program listed twice, the same expanded counter name or stack name listed twice for a program, '
         'counter entries that are not <plain name> or <chart>:{<bucket>,...} with non-empty buckets, stack entries containing a newline',
         'C01 approves builds on program/version/Go version; a report that additionally drops builds whose GOOS/GOARCH the configuration does not list (the reading of C11) is accepted too',
@@ -286,7 +287,7 @@ def run(ctx):
         # one machine: one config proxy and one environment for all runs of the history; the configuration a
         # run finds as "latest" is the one published last; runs happen in this process or in a fresh one
         cases.append({'id': nvec + j, 'oneproxy': True,
-                      'steps': [dict(A.step_of(hcfgs[s['cfg']], A.D_VEC, tl_files(s['files']), s['x'], reply=s['reply'], cfgver=vers(s['ver'])), fresh=s['fresh'])
+                      'steps': [dict(A.step_of(hcfgs[s['cfg']], A.D_VEC, tl_files(s['files']), s['x'], reply=s['reply'], cfgver=vers(s['ver'])), fresh=s['fresh'], raced=s['how'] == 'raced')
                                 for s in steps]})
     nhist = len(behs)
 
@@ -382,11 +383,12 @@ def check_histories(ctx, hcfgs, vers, behs, by, base):
     for j, steps in enumerate(behs):
         good = True
         prev_local = {}
+        known = {}      # week date -> the body ApprovalHist built for it (data, progs), once it was posted
         for k, s in enumerate(steps):
             rec = by.get(base + j, {}).get(k)
             if rec is None:
                 raise Infra('no record for history %d step %d' % (j, k))
-            detail = {'history': [{'published': t['cfg'], 'version': t['ver'], 'fresh_process': t['fresh'], 'x': t['x'], 'reply': t['reply'], 'files': tl_files(t['files'])} for t in steps[:k + 1]], 'step': k}
+            detail = {'history': [{'published': t['cfg'], 'version': t['ver'], 'run': t['how'], 'x': t['x'], 'reply': t['reply'], 'files': tl_files(t['files'])} for t in steps[:k + 1]], 'step': k}
             if rec.get('err'):
                 viol(ctx, '%s:run:%s' % (P, rec['err'].split(':')[0]), dict(detail, err=rec['err']), 'upload.Run: ' + rec['err'])
                 good = False
@@ -397,12 +399,21 @@ def check_histories(ctx, hcfgs, vers, behs, by, base):
             for q in rec.get('requests') or []:
                 date = q['path'].lstrip('/')
                 if q['method'] != 'POST' or date in seen or date not in posts:
+                    # every body that leaves the machine is the approved subset built for its week, whatever
+                    # file it was read from
+                    kb = known.get(date)
+                    body = A.Body(q['body'])
+                    if kb is not None and q['method'] == 'POST' and (body.data != A.tdata(kb['data']) or not body.progs <= set(A.btuple(x) for x in kb['progs'])):
+                        extra = sorted(body.data - A.tdata(kb['data']))
+                        viol(ctx, '%s:history:posted-body-not-the-approved-subset' % P, dict(detail, request=q, not_approved=extra[:10]),
+                             'history %d run %d: a body posted for %s is not the approved report of that week (e.g. it carries %r)' % (j, k, date, extra[:1]))
                     viol(ctx, '%s:history:request-not-allowed' % P, dict(detail, request=q),
                                   'history %d run %d: request %s %s is not one ApprovalHist allows (resent, refused or unknown week)' % (j, k, q['method'], q['path']))
                     good = False
                     continue
                 seen[date] = q
             for date, b in posts.items():
+                known[date] = b
                 q = seen.get(date)
                 if q is None:
                     ctx.warn('MODEL-DIVERGENCE history %d run %d: no request for %s' % (j, k, date))
@@ -449,12 +460,17 @@ def check_histories(ctx, hcfgs, vers, behs, by, base):
                         viol(ctx, '%s:history:ready-report-content' % P, dict(detail, week=date, file=loc[date + '.json']),
                                       'history %d run %d: local/%s.json does not hold the approved data' % (j, k, date))
                         good = False
+            odd = [n for n in rec.get('localnames') or [] if not re.match(r'^(local\.)?\d{4}-\d\d-\d\d\.json$|.*\.v1\.count$|^weekends$', n)]
+            if odd:
+                ctx.warn('MODEL-DIVERGENCE history %d run %d: files in local/ that the upload process does not document: %s' % (j, k, odd))
+                ctx.cov['divergences'] += 1
+                good = False
             prev_local = loc
         if good:
             ok += 1
     if behs:
         s = behs[0]
-        ctx.sample({'kind': 'history', 'runs': [{'published': t['cfg'], 'version': t['ver'], 'fresh_process': t['fresh'], 'x': t['x'], 'reply': t['reply'], 'arrived_files': [f['id'] for f in t['files']],
+        ctx.sample({'kind': 'history', 'runs': [{'published': t['cfg'], 'version': t['ver'], 'run': t['how'], 'x': t['x'], 'reply': t['reply'], 'arrived_files': [f['id'] for f in t['files']],
                                                 'posted_weeks': sorted(b['w'] for b in t['obs']['posts'])} for t in s]})
     return ok
 
